@@ -28,6 +28,23 @@ def cases(rng, tier):
         for bits in (249, 250, 254, 255):
             cs.append(Case(20, [ipv6, 0], [bytes([bits]) + gen.rbytes(rng, 3)], "pfx.wrap"))
             cs.append(Case(21, [4 if ipv6 else 0], [bytes([bits])], "wrap.wrap"))
+    # distinguished values under valid framing: the default route, host routes, all-zeros / all-ones / class-boundary first
+    # octets, path identifiers 0 and 2^32-1, IPv6 next hops that are ::, all-ones or link-local — accepted on length alone
+    for ipv6 in (0, 1):
+        mx = 128 if ipv6 else 32
+        for bits in (0, 1, 7, 8, 9, mx - 1, mx):
+            nb = (bits + 7) // 8
+            for fill in (0x00, 0xFF, 0x7F, 0x80, 0xE0, 0xF0, 0xFE):
+                for v in {bytes([fill]) * nb, (bytes([fill]) + bytes(nb - 1)) if nb else b""}:
+                    one = bytes([bits]) + v
+                    cs.append(Case(20, [ipv6, 0], [one], "pfx.distinguished"))
+                    cs.append(Case(20, [ipv6, 0], [one + one], "pfx.distinguished"))
+                    for pid in (b"\x00\x00\x00\x00", b"\xff\xff\xff\xff"):
+                        cs.append(Case(20, [ipv6, 1], [pid + one], "appfx.distinguished"))
+                    for k in range(6):
+                        cs.append(Case(21, [k], [one if k % 2 == 0 else b"\x00\x00\x00\x00" + one], "wrap.distinguished"))
+    for v in (bytes(16), b"\xff" * 16, b"\xfe\x80" + bytes(14), bytes(32), b"\xff" * 32, bytes(16) + b"\xfe\x80" + bytes(14)):
+        cs.append(Case(22, [], [v], "v6nh.distinguished"))
     for _ in range(n):
         ipv6 = rng.random() < 0.4
         ap = rng.random() < 0.4
